@@ -71,3 +71,10 @@ CLAIMED["C17"] = (
     _TRUST + " Names are sent as quoted strings; the model follows asimap's documented create/delete conventions.",
     "DESIGN.md section 4 C17",
 )
+CLAIMED["C18"] = (
+    "exploration",
+    "property-based testing + bounded exhaustive enumeration: Hypothesis-generated pre-authentication histories through the real IMAP/POP3 front-ends with a recording stub at the subprocess gate; exhaustive enumeration of timed attempt sequences against a reference throttle automaton through check_allow/login_failed, PreAuthenticated.do_login and POP3 _do_pass on a virtual clock",
+    "Gate: generated sequences of arbitrary commands and LOGIN / USER+PASS attempts (wrong, empty, disabled, old, near-miss passwords in every encoding) must never reach the user-process stub or touch a mail root before a right-password login is answered OK. Throttle: every timed sequence over small user/address/gap alphabets up to the stated depth is enumerated (exhaustive: true) and each verdict compared with a reference automaton written from the property text; exactly-60-second gaps accept either verdict.",
+    _TRUST + " Front-ends are driven in-process; low-iteration password hashes; refusals are assumed not to be recorded as failures (as the code and DESIGN.md state).",
+    "DESIGN.md section 4 C18",
+)
